@@ -53,6 +53,7 @@ func floors(tier string) map[string]int64 {
 		"tampered_rejected_block": 1750, "tampered_rejected_mempool": 1750,
 		"controls_accepted_block": 200, "controls_accepted_mempool": 100,
 	}
+	f["failed_token_calls_with_value"] = 10
 	if tier == "thorough" {
 		for k := range f {
 			f[k] *= 22
